@@ -410,6 +410,14 @@ func checkC08(c *core.Ctx) {
 		})
 	}
 
+	// the largest delta a file can hold, to the tick: 2^28-1 ticks must come out as four bytes (or be refused), 2^28
+	// and 2^28+1 can only be refused (round 10, C08-mutR10a: the limit written as 1 << 28)
+	for _, ticks := range []uint64{1<<28 - 2, 1<<28 - 1, 1 << 28, 1<<28 + 1} {
+		v := []model.Frac{{Num: ticks, Den: 960}}
+		probes = append(probes, probe{fmt.Sprintf("chord-of-%d-ticks", ticks), model.Piece{Inst: []model.Instance{{Chord: ch(), Values: v}}}, model.Flags{}})
+		probes = append(probes, probe{fmt.Sprintf("rest-of-%d-ticks", ticks), model.Piece{Inst: []model.Instance{{Values: v}, {Chord: ch(), Values: one()}}}, model.Flags{}})
+		probes = append(probes, probe{fmt.Sprintf("trailing-rest-of-%d-ticks-track2", ticks), model.Piece{Inst: []model.Instance{{Chord: ch(), Values: one()}, {Values: v}}}, model.Flags{Track: 2}})
+	}
 	c.Stream("boundary", len(probes), func(i int, r *rand.Rand) {
 		pr := probes[i]
 		judgeWellFormed(c, "boundary", i, pr.p, pr.f, writeOpts{}, "boundary:"+pr.name)
